@@ -111,6 +111,9 @@ fn run_l<L: Language + 'static>(c: &Mixed, obs: &mut Obs) -> Result<(), String> 
     if cascaded {
         obs.label("cascaded-shrink");
     }
+    if st.terms.iter().any(|t| t.has_same_node_shadowing()) {
+        obs.label("same-node-shadowing");
+    }
     if st.rewrites_changed > 0 {
         obs.label("rewrite-changed");
     }
